@@ -38,6 +38,7 @@ func main() {
 	replay := flag.String("replay", "", "replay file: re-decide the recorded construct")
 	list := flag.Bool("list", false, "print every obligation")
 	flag.Parse()
+	debug.SetGCPercent(400)
 	if t := os.Getenv("VERIF_TIER"); t != "" && !flagSet("tier") {
 		*tier = t
 	}
